@@ -17,21 +17,28 @@ preprocessed commitment, digest width `E`, extension degree `D`).
 
 Theorems (all for every shape, every `D`, `E`; no size bound anywhere):
 
-* `packing_aligned_uni`, `packing_aligned_batch` — FULL STRENGTH for well-formed shapes:
+* `packing_aligned_uni`, `packing_aligned_batch` — FULL STRENGTH, no hypothesis:
     the public labels of the allocation trace, in order, are exactly the packed public vector, and
     the private labels exactly the packed private vector.
-  Hypothesis `s.pcs.wf`: every commit-phase step carries `2^log_arity − 1` siblings. It is the one
-  place where `new` and `get_private_values` read *different* fields (`log_arity` vs
-  `sibling_values.len()`); `P3R.Witness.C14.wf_needed` shows the statement is false without it, and
-  such a proof is not a "proof shape" in the property's sense: native `verify_query` rejects it and
-  the runner refuses the private vector (`PrivateInputLengthMismatch`) — replayed on the real code
-  every run (`corpus/c14/malformed_siblings.json`, expected outcome: rejected, not a finding).
+  (Until /repo fc0321f these needed `s.pcs.wf` — every commit-phase step carries `2^log_arity − 1`
+  siblings — because `CommitPhaseProofStepTargets::new` sized the sibling targets from `log_arity`
+  while `get_private_values` read `sibling_values.len()`. Both now read the latter; the hypothesis
+  is gone. A malformed count is instead refused when the verifier circuit is built:
+  `P3R.C14.malformed_siblings_rejected`, `Props/C14Siblings.lean`; replayed on the real code every
+  run, `corpus/c14/malformed_siblings.json`: vectors accepted by the runner, build refused.)
 * `lengths_eq_uni`, `lengths_eq_batch` — packed lengths = `public_flat_len` / `private_flat_len`
   (the number of public / private allocations).
 * `packed_position_uni/batch` — position-wise form: position `i` of a packed vector holds the
   element named like the `i`-th allocated target of that visibility.
-* `no_dead_input_uni`, `no_dead_input_batch` — every allocated input is consumed by the verifier
-  model (`…Uses`: transcript observation, PCS operand or constraint operand), for every shape that
+* `no_dead_input_uni_built`, `no_dead_input_batch_built` — every allocated input is consumed by the
+  verifier model for every shape on which the verifier's build-time check of the per-query folding
+  data passes (`friSibCheck D s.pcs.fri = ok`; every other shape yields `InvalidProofShape` and no
+  circuit — `friSibCheck_ok_wf`, `malformed_siblings_rejected`). `no_dead_input_uni`,
+  `no_dead_input_batch` are the same under the (incomparable) hypothesis `s.pcs.wf`, as before;
+  both follow from `no_dead_input_*_coeffs` (allocated = consumed coefficient count per step).
+  `P3R.Witness.C14.sib_check_needed`: without either hypothesis surplus sibling coefficients are
+  allocated, packed and consumed by nothing.
+  Every allocated input is consumed by the verifier model (`…Uses`: transcript observation, PCS operand or constraint operand), for every shape that
   passes the verifier's own shape validation (`validated`; shapes failing it yield
   `InvalidProofShape` and no circuit). `…Uses` is a *block-level* transcription of the verifier;
   that a consumed operand is actually *constrained* is what C05/C07/C08/C13/C20 prove for the
@@ -41,7 +48,7 @@ Not proved here: distinctness of the label naming scheme (checked at run time by
 every generated shape: `distinct 1`), and that the Rust traversals are what the model says (tied by
 the sentinel read-back correspondence, see `design_notes/C14.md`).
 -/
-import P3R.Lemmas.Packing
+import P3R.Props.C14Siblings
 import Mathlib.Tactic.Tauto
 
 namespace P3R.C14
@@ -51,21 +58,21 @@ open P3R.Packing
 
 /-- Uni-STARK: `StarkVerifierInputsBuilder::{allocate, pack_public_values, pack_private_values}`
     over `ProofTargets` with any of the modelled PCS proof types. -/
-theorem packing_aligned_uni (D E : Nat) (s : UniShape) (h : s.pcs.wf = true) :
+theorem packing_aligned_uni (D E : Nat) (s : UniShape) :
     pubOf (uniAlloc D E s) = uniPub E s ∧ privOf (uniAlloc D E s) = uniPriv D s := by
   constructor
   · simp [uniAlloc, uniPub, pubOf_optL, coms_pub, ov_pub, pcs_pub, cap_pub]
-  · simp [uniAlloc, uniPriv, privOf_optL, coms_priv, ov_priv, pcs_priv D E s.pcs h, cap_priv]
+  · simp [uniAlloc, uniPriv, privOf_optL, coms_priv, ov_priv, pcs_priv D E s.pcs, cap_priv]
 
 /-- Batch-STARK: `BatchStarkVerifierInputsBuilder` over `BatchProofTargets` + `CommonDataTargets`. -/
-theorem packing_aligned_batch (D E : Nat) (s : BatchShape) (h : s.pcs.wf = true) :
+theorem packing_aligned_batch (D E : Nat) (s : BatchShape) :
     pubOf (batchAlloc D E s) = batchPub E s ∧ privOf (batchAlloc D E s) = batchPriv D s := by
   constructor
   · simp [batchAlloc, batchPub, pubOf_optL, pubOf_flatMapIdx, coms_pub, ovs_pub, pcs_pub, cap_pub]
   · simp [batchAlloc, batchPriv, privOf_optL, privOf_flatMapIdx, coms_priv, ovs_priv,
-      pcs_priv D E s.pcs h, cap_priv]
+      pcs_priv D E s.pcs, cap_priv]
 
-/-- Non-vacuity: a shape with two queries, arity-2 and arity-8 rounds satisfies the hypothesis. -/
+/-- Non-vacuity of `wf` (hypothesis of `no_dead_input_uni/batch`): two queries, arity-2 and arity-8 rounds. -/
 example : (PcsShape.mk none ⟨[1, 1], 2,
     [⟨[⟨[3, 2], []⟩], [⟨1, 1, []⟩, ⟨3, 7, []⟩]⟩, ⟨[⟨[3, 2], []⟩], [⟨1, 1, []⟩, ⟨3, 7, []⟩]⟩], 4⟩).wf = true := by
   decide
@@ -74,16 +81,16 @@ example : (PcsShape.mk none ⟨[1, 1], 2,
 def publicFlatLen (a : List Slot) : Nat := (pubOf a).length
 def privateFlatLen (a : List Slot) : Nat := (privOf a).length
 
-theorem lengths_eq_uni (D E : Nat) (s : UniShape) (h : s.pcs.wf = true) :
+theorem lengths_eq_uni (D E : Nat) (s : UniShape) :
     (uniPub E s).length = publicFlatLen (uniAlloc D E s) ∧
     (uniPriv D s).length = privateFlatLen (uniAlloc D E s) := by
-  obtain ⟨h1, h2⟩ := packing_aligned_uni D E s h
+  obtain ⟨h1, h2⟩ := packing_aligned_uni D E s
   simp [publicFlatLen, privateFlatLen, h1, h2]
 
-theorem lengths_eq_batch (D E : Nat) (s : BatchShape) (h : s.pcs.wf = true) :
+theorem lengths_eq_batch (D E : Nat) (s : BatchShape) :
     (batchPub E s).length = publicFlatLen (batchAlloc D E s) ∧
     (batchPriv D s).length = privateFlatLen (batchAlloc D E s) := by
-  obtain ⟨h1, h2⟩ := packing_aligned_batch D E s h
+  obtain ⟨h1, h2⟩ := packing_aligned_batch D E s
   simp [publicFlatLen, privateFlatLen, h1, h2]
 
 /-- The two counters account for every allocation (no third kind of input). -/
@@ -91,16 +98,16 @@ theorem flat_lens_total (a : List Slot) : publicFlatLen a + privateFlatLen a = a
   length_pubOf_add_privOf a
 
 /-- Position-wise form ("every position in the packed vectors"). -/
-theorem packed_position_uni (D E : Nat) (s : UniShape) (h : s.pcs.wf = true) (i : Nat) :
+theorem packed_position_uni (D E : Nat) (s : UniShape) (i : Nat) :
     (uniPub E s)[i]? = (pubOf (uniAlloc D E s))[i]? ∧
     (uniPriv D s)[i]? = (privOf (uniAlloc D E s))[i]? := by
-  obtain ⟨h1, h2⟩ := packing_aligned_uni D E s h
+  obtain ⟨h1, h2⟩ := packing_aligned_uni D E s
   rw [h1, h2]; exact ⟨rfl, rfl⟩
 
-theorem packed_position_batch (D E : Nat) (s : BatchShape) (h : s.pcs.wf = true) (i : Nat) :
+theorem packed_position_batch (D E : Nat) (s : BatchShape) (i : Nat) :
     (batchPub E s)[i]? = (pubOf (batchAlloc D E s))[i]? ∧
     (batchPriv D s)[i]? = (privOf (batchAlloc D E s))[i]? := by
-  obtain ⟨h1, h2⟩ := packing_aligned_batch D E s h
+  obtain ⟨h1, h2⟩ := packing_aligned_batch D E s
   rw [h1, h2]; exact ⟨rfl, rfl⟩
 
 /-! ### Every allocated input is consumed by the verifier -/
@@ -164,34 +171,46 @@ theorem pcs_pub_used (D E : Nat) (p : PcsShape) : ∀ x, x ∈ pcsPub E p → x 
   simp only [pcsUses, List.mem_append]
   exact Or.inl (Or.inl hx)
 
-theorem pcs_priv_used (D E : Nat) (p : PcsShape) (h : p.wf = true) :
-    ∀ x, x ∈ pcsPriv D p → x ∈ pcsUses D E p := by
-  intro x hx
-  have hq : ∀ q ∈ p.fri.queries, q.wf = true := by
+/-- Per step, the number of coefficient targets allocated (`siblings · D`) is the number the fold
+    consumes (`(2^log_arity − 1) · D`). Follows from `wf` and from an accepted build. -/
+def CoeffsOk (D : Nat) (p : PcsShape) : Prop :=
+  ∀ q ∈ p.fri.queries, ∀ st ∈ q.steps, st.siblings * D = (2 ^ st.logArity - 1) * D
+
+theorem coeffsOk_of_wf (D : Nat) (p : PcsShape) (h : p.wf = true) : CoeffsOk D p := by
+  intro q hq st hst
+  have hq' : ∀ q ∈ p.fri.queries, q.wf = true := by
     have : p.fri.wf = true := h
     simpa [FriShape.wf] using this
+  have hs : ∀ st ∈ q.steps, st.wf = true := by simpa [QueryShape.wf] using hq' q hq
+  have hw : st.siblings = 2 ^ st.logArity - 1 := by simpa [StepShape.wf] using hs st hst
+  rw [hw]
+
+theorem coeffsOk_of_built (D : Nat) (p : PcsShape) (h : friSibCheck D p.fri = .ok ()) :
+    CoeffsOk D p := friSibCheck_ok_coeffs D p.fri h
+
+theorem pcs_priv_used (D E : Nat) (p : PcsShape) (h : CoeffsOk D p) :
+    ∀ x, x ∈ pcsPriv D p → x ∈ pcsUses D E p := by
+  intro x hx
   simp only [pcsPriv, pcsUses, friPriv, List.mem_append] at hx ⊢
   rcases hx with hx | hx
   · exact Or.inl (Or.inr hx)
   · refine Or.inr (flatMapIdx_mono 0 p.fri.queries ?_ x hx)
     intro j q hqm y hy
-    have hs : ∀ st ∈ q.steps, st.wf = true := by simpa [QueryShape.wf] using hq q hqm
     simp only [queryPriv, queryUses, List.mem_append] at hy ⊢
     rcases hy with hy | hy
     · exact Or.inl hy
     · refine Or.inr (flatMapIdx_mono 0 q.steps ?_ y hy)
       intro k st hst z hz
-      have hw : st.siblings = 2 ^ st.logArity - 1 := by simpa [StepShape.wf] using hs st hst
       unfold stepPriv at hz
       unfold stepUses idx
-      rw [sibCoeffs_eq, hw, Nat.zero_mul] at hz
+      rw [sibCoeffs_eq, h q hqm st hst, Nat.zero_mul] at hz
       exact hz
 
-/-- **Uni-STARK**: every allocated input is consumed by the verifier. -/
-theorem no_dead_input_uni (D E : Nat) (s : UniShape) (hwf : s.pcs.wf = true)
+/-- **Uni-STARK**: every allocated input is consumed by the verifier (core form). -/
+theorem no_dead_input_uni_coeffs (D E : Nat) (s : UniShape) (hwf : CoeffsOk D s.pcs)
     (hv : s.validated = true) : ∀ sl ∈ uniAlloc D E s, sl.lab ∈ uniUses D E s := by
   intro sl hsl
-  obtain ⟨h1, h2⟩ := packing_aligned_uni D E s hwf
+  obtain ⟨h1, h2⟩ := packing_aligned_uni D E s
   rcases mem_pubOf_or_privOf hsl with h | h
   · rw [h1] at h
     simp only [uniPub, uniUses, comsUses, List.mem_append] at h ⊢
@@ -206,11 +225,11 @@ theorem no_dead_input_uni (D E : Nat) (s : UniShape) (hwf : s.pcs.wf = true)
     · exact Or.inl (Or.inr (ov_used _ _ s.ov hv _ h))
     · exact Or.inr (pcs_priv_used D E s.pcs hwf _ h)
 
-/-- **Batch-STARK**: every allocated input is consumed by the verifier. -/
-theorem no_dead_input_batch (D E : Nat) (s : BatchShape) (hwf : s.pcs.wf = true)
+/-- **Batch-STARK**: every allocated input is consumed by the verifier (core form). -/
+theorem no_dead_input_batch_coeffs (D E : Nat) (s : BatchShape) (hwf : CoeffsOk D s.pcs)
     (hv : s.validated = true) : ∀ sl ∈ batchAlloc D E s, sl.lab ∈ batchUses D E s := by
   intro sl hsl
-  obtain ⟨h1, h2⟩ := packing_aligned_batch D E s hwf
+  obtain ⟨h1, h2⟩ := packing_aligned_batch D E s
   have hv' : (∀ o ∈ s.ovs, o.base.prepOk s.prep.isSome = true) ∧
       (s.coms.perm.isSome = true ∨ s.terminals.all (· == false) = true) := by
     simpa [BatchShape.validated] using hv
@@ -233,6 +252,29 @@ theorem no_dead_input_batch (D E : Nat) (s : BatchShape) (hwf : s.pcs.wf = true)
       exact ovl_used _ _ o (hv'.1 o ho) x hx
     · exact Or.inr (pcs_priv_used D E s.pcs hwf _ h)
 
+/-- **Uni-STARK**, well-formed sibling counts (statement unchanged). -/
+theorem no_dead_input_uni (D E : Nat) (s : UniShape) (hwf : s.pcs.wf = true)
+    (hv : s.validated = true) : ∀ sl ∈ uniAlloc D E s, sl.lab ∈ uniUses D E s :=
+  no_dead_input_uni_coeffs D E s (coeffsOk_of_wf D s.pcs hwf) hv
+
+/-- **Batch-STARK**, well-formed sibling counts (statement unchanged). -/
+theorem no_dead_input_batch (D E : Nat) (s : BatchShape) (hwf : s.pcs.wf = true)
+    (hv : s.validated = true) : ∀ sl ∈ batchAlloc D E s, sl.lab ∈ batchUses D E s :=
+  no_dead_input_batch_coeffs D E s (coeffsOk_of_wf D s.pcs hwf) hv
+
+/-- **Uni-STARK, every circuit that gets built**: if the verifier's own checks pass (`validated`
+    at the head of `verify_circuit`, `friSibCheck` at the head of `verify_fri_circuit`) every
+    allocated input is consumed. No assumption on the proof beyond "a circuit exists". -/
+theorem no_dead_input_uni_built (D E : Nat) (s : UniShape) (hb : friSibCheck D s.pcs.fri = .ok ())
+    (hv : s.validated = true) : ∀ sl ∈ uniAlloc D E s, sl.lab ∈ uniUses D E s :=
+  no_dead_input_uni_coeffs D E s (coeffsOk_of_built D s.pcs hb) hv
+
+/-- **Batch-STARK, every circuit that gets built.** -/
+theorem no_dead_input_batch_built (D E : Nat) (s : BatchShape)
+    (hb : friSibCheck D s.pcs.fri = .ok ()) (hv : s.validated = true) :
+    ∀ sl ∈ batchAlloc D E s, sl.lab ∈ batchUses D E s :=
+  no_dead_input_batch_coeffs D E s (coeffsOk_of_built D s.pcs hb) hv
+
 /-- Non-vacuity of `validated` (a table with preprocessed openings and a lookup terminal). -/
 example : (BatchShape.mk [0, 1] ⟨1, some 1, 1, none⟩
     [⟨⟨2, some 2, some 1, some 1, [1], none⟩, 1, 1⟩, ⟨⟨3, none, none, none, [1, 1], none⟩, 0, 0⟩]
@@ -249,3 +291,7 @@ end P3R.C14
 #print axioms P3R.C14.packed_position_batch
 #print axioms P3R.C14.no_dead_input_uni
 #print axioms P3R.C14.no_dead_input_batch
+#print axioms P3R.C14.no_dead_input_uni_coeffs
+#print axioms P3R.C14.no_dead_input_batch_coeffs
+#print axioms P3R.C14.no_dead_input_uni_built
+#print axioms P3R.C14.no_dead_input_batch_built
